@@ -71,7 +71,7 @@ def gen_case(rng, i):
     else:
         delays = [rng.choice(pool) for _ in range(m)]
     if stat:
-        loss = rng.choice([0.1, 0.3, 0.5, 0.8])
+        loss = rng.choice([0.1, 0.3, 0.5, 0.8, 0.004, 0.996, 0.125, 0.015])      # (not only whole percents)
     else:
         loss = rng.choice([None, None, None, 0, 0, 1, 0.3, 0.5])
     case = {"kind": kind, "flavour": flavour, "arrivals": arr, "delays": delays, "loss": loss,
@@ -110,6 +110,18 @@ def gen_case(rng, i):
         case["arrivals2"] = vnet.gen_arrivals(rng, 3, flavour, rng.randint(2, 40), [100, 500], None)
         case["loss"] = rng.choice([None, None, 0])
     return case
+
+
+def binom_two_sided_tail(n, p, k):
+    """min(P(X <= k), P(X >= k)) * 2 for X ~ Binomial(n, p), computed from exact log-probabilities"""
+    lp, lq = math.log(p), math.log1p(-p)
+    logs = [math.lgamma(n + 1) - math.lgamma(j + 1) - math.lgamma(n - j + 1) + j * lp + (n - j) * lq for j in range(n + 1)]
+    m = max(logs)
+    w = [math.exp(x - m) for x in logs]
+    tot = sum(w)
+    lower = sum(w[:k + 1]) / tot
+    upper = sum(w[k:]) / tot
+    return min(1.0, 2 * min(lower, upper))
 
 
 def close_ulps(a, b, n=16):
@@ -235,6 +247,14 @@ def run_case(case, stats):
             if abs(lost / n - loss) > band:
                 viol.append(("loss-frequency-inconsistent-with-rate", "the observed loss frequency is outside the Hoeffding band around the loss rate",
                              {"n": n, "lost": lost, "rate": loss, "band": band}))
+            else:
+                # the exact binomial tail is much sharper than Hoeffding near 0 and 1 (p = 0.004: no loss at all among
+                # 12000 packets has probability e^-48)
+                tail = binom_two_sided_tail(n, loss, lost)
+                stats["binomial_tail_checks"] += 1
+                if tail < 1e-12:
+                    viol.append(("loss-frequency-inconsistent-with-rate", "the observed number of losses has probability < 1e-12 under Binomial(n, loss rate)",
+                                 {"n": n, "lost": lost, "rate": loss, "two_sided_tail": tail}))
             # lag-1 independence: P(lost_i and lost_{i+1}) ~ p^2
             flags = [0 if u in seen else 1 for (_, _, u) in entered]
             both = sum(1 for x, y in zip(flags, flags[1:]) if x and y)
@@ -339,7 +359,7 @@ def run_phased(case, stats, net):
 
 
 KEYS = ("big_clock_cases", "loss_reconfigured_cases", "loss_seed_comparisons", "deliveries_checked", "held_back_by_predecessor", "arrived_during_propagation", "loss_all_cases",
-        "loss_none_cases", "loss_stat_packets", "cable_cases", "receivers_returning_pending_events", "same_object_cases", "same_object_reentries", "negative_clock_cases", "huge_int_clock_cases")
+        "loss_none_cases", "loss_stat_packets", "cable_cases", "receivers_returning_pending_events", "same_object_cases", "same_object_reentries", "negative_clock_cases", "huge_int_clock_cases", "binomial_tail_checks")
 
 
 def gen_same_object(rng):
@@ -427,7 +447,45 @@ def slim(case):
     return case
 
 
+def many_in_flight_case(ctx):
+    """more than 65536 packets inside one wire at once (a long fat pipe): one per tick, constant delay far above the
+    number of packets; every one is delivered at exactly a + d"""
+    from onl.netdev import Wire
+    net = vnet.Net(0)
+    env = net.env
+    n, d = 70000, 100000
+    w = Wire(env, lambda: d, None)
+    got = []
+
+    class Rx:
+        def put(self, p):
+            got.append((env.now, p.packet_id))
+    w.out = Rx()
+    keep = []
+
+    def src():
+        for k in range(n):
+            yield env.timeout(1)
+            p = net.make_packet(0, 100, k)
+            keep.append(p)
+            w.put(p)
+    env.process(src())
+    case = {"probe": "many_in_flight", "n": n, "delay": d}
+    err = net.run(cap=10 ** 7)
+    ctx.count("many_in_flight_cases")
+    if err:
+        ctx.violation(err + "[wire]", "the run raised", net.errors[-1] if net.errors else err, case)
+        return
+    bad = [(k, t) for k, (t, pid) in enumerate(got) if pid != k or t != k + 1 + d]
+    if len(got) != n or bad:
+        ctx.violation("held-longer-than-needed[wire][more than 65536 packets in flight]" if bad and bad[0][1] > bad[0][0] + 1 + d else "lost-without-loss-rate[wire][more than 65536 packets in flight]",
+                      "with tens of thousands of packets inside the wire at once a packet was not delivered at a + d",
+                      {"delivered": len(got), "first_wrong": bad[:2]}, case)
+
+
 def run_shard(ctx):
+    if ctx.shard == 1 or (ctx.tier == "thorough" and ctx.shard % 4 == 1):
+        many_in_flight_case(ctx)
     for i in ctx.cases(ncases(ctx.tier)):
         case = gen_case(ctx.rng(i), i)
         viol, nt = one_case(ctx, case)
